@@ -184,8 +184,12 @@ func handleOpen(h *Handler, iq openIQ, e xmlstream.Encoder) error {
 	expect, ok := l.expected[key]
 	if ok {
 		delete(l.expected, key)
-		expect.c <- conn
-		return nil
+		select {
+		case expect.c <- conn:
+			return nil
+		case <-expect.done:
+			// The Expect call gave up in the meantime, fall back to Accept.
+		}
 	}
 	l.c <- conn
 	return nil
